@@ -31,7 +31,8 @@ LEVEL_TEXT = ("Exploration: thousands of (tree, transform, centre mode) cases: r
               "generic unit axes, angles 0, +-pi/2, pi, 2pi, 1e-3 and generic, anisotropic and <1 "
               "scales, instance reuse on a second tree, classmethod and composed forms. Held = held "
               "on those executions."
-              "Scale factors include zero (flattening) and negative (mirror) values.")
+              "Scale factors include zero (flattening) and negative (mirror) values."
+              " One tree in three is edited in place (node handle, item or column write, the root included) and transformed again by the same instance.")
 LEVEL_NOTE = ("Tolerance 3e-5*(1+largest coordinate magnitude) on float32 results (measured noise "
               "~1e-6 relative); rotation axes are unit vectors (the documented formula presumes "
               "|n| = 1).")
